@@ -12,7 +12,6 @@
 // NaN results are printed as `nan`.
 #include "common/verif.h"
 
-#include "kernel/vita.h"
 #include "kernel/fitness.h"
 #include "kernel/model_measurements.h"
 
@@ -49,7 +48,6 @@ std::string show(const fitness_t &f)
 
 int main()
 {
-  vita::log::reporting_level = vita::log::lOFF;
   std::cout.setf(std::ios::unitbuf);   // an abort must not swallow earlier answers
   std::string line;
   while (std::getline(std::cin, line))
